@@ -39,7 +39,7 @@ impl NetworkTag {
 //@extract multiboot2/src/network.rs :: impl NetworkTag :: fn new
 //@  ret r
 //@  rewrite /Self::ID/ => /TagType::Network/
-//@  rewrite /new_boxed\(header, &\[dhcp_pack\]\)/ => /{ let parts: [&[u8]; 1] = [dhcp_pack]; proof { assert(parts@ =~= Seq::<&[u8]>::empty().push(dhcp_pack)); } new_boxed(header, parts.as_slice()) }/
+//@  rewrite /new_boxed\(header, &\[(\w+)\]\)/ => /{ let parts: [&[u8]; 1] = [\1]; proof { assert(parts@ =~= Seq::<&[u8]>::empty().push(\1)); } new_boxed(header, parts.as_slice()) }/
 //@  prologue proof { lemma_mb2_layouts(); }
 //@  spec:
 //@    requires 8 + dhcp_pack@.len() <= u32::MAX,
@@ -55,7 +55,7 @@ impl SmbiosTag {
 //@  ret r
 //@  rewrite /Self::ID/ => /TagType::Smbios/
 //@  rewrite /let reserved = \[0, 0, 0, 0, 0, 0\];/ => /let reserved: [u8; 6] = [0, 0, 0, 0, 0, 0];/
-//@  rewrite /new_boxed\(header, &\[&\[major, minor\], &reserved, tables\]\)/ => /{ let a0: [u8; 2] = [major, minor]; let p0: &[u8] = a0.as_slice(); let p1: &[u8] = reserved.as_slice(); let parts: [&[u8]; 3] = [p0, p1, tables]; proof { assert(parts@ =~= Seq::<&[u8]>::empty().push(p0).push(p1).push(tables)); assert(p0@ =~= seq![major, minor]); assert(p1@ =~= seq![0u8, 0u8, 0u8, 0u8, 0u8, 0u8]); } new_boxed(header, parts.as_slice()) }/
+//@  rewrite /new_boxed\(header, &\[&\[(\w+), (\w+)\], &(\w+), (\w+)\]\)/ => /{ let a0: [u8; 2] = [\1, \2]; let p0: &[u8] = a0.as_slice(); let p1: &[u8] = \3.as_slice(); let parts: [&[u8]; 3] = [p0, p1, \4]; proof { assert(parts@ =~= Seq::<&[u8]>::empty().push(p0).push(p1).push(\4)); assert(p0@ =~= seq![\1, \2]); assert(p1@ =~= seq![0u8, 0u8, 0u8, 0u8, 0u8, 0u8]); } new_boxed(header, parts.as_slice()) }/
 //@  prologue proof { lemma_mb2_layouts(); }
 //@  spec:
 //@    requires 16 + tables@.len() <= u32::MAX,
@@ -73,7 +73,7 @@ impl ElfSectionsTag {
 //@  ret r
 //@  rewrite /Self::ID/ => /TagType::ElfSections/
 //@  rewrite /(\w+)\.to_ne_bytes\(\)/ => /ne_bytes_u32(\1)/ x3
-//@  rewrite /new_boxed\(\s*header,\s*&\[&number_of_sections, &entry_size, &shndx, sections\],?\s*\)/ => /{ let p0: &[u8] = number_of_sections.as_slice(); let p1: &[u8] = entry_size.as_slice(); let p2: &[u8] = shndx.as_slice(); let parts: [&[u8]; 4] = [p0, p1, p2, sections]; proof { assert(parts@ =~= Seq::<&[u8]>::empty().push(p0).push(p1).push(p2).push(sections)); } new_boxed(header, parts.as_slice()) }/
+//@  rewrite /new_boxed\(\s*header,\s*&\[&(\w+), &(\w+), &(\w+), (\w+)\],?\s*\)/ => /{ let p0: &[u8] = \1.as_slice(); let p1: &[u8] = \2.as_slice(); let p2: &[u8] = \3.as_slice(); let parts: [&[u8]; 4] = [p0, p1, p2, \4]; proof { assert(parts@ =~= Seq::<&[u8]>::empty().push(p0).push(p1).push(p2).push(\4)); } new_boxed(header, parts.as_slice()) }/
 //@  prologue proof { lemma_mb2_layouts(); }
 //@  spec:
 //@    requires 20 + sections@.len() <= u32::MAX,
@@ -91,7 +91,7 @@ impl EFIMemoryMapTag {
 //@  ret r
 //@  rewrite /Self::ID/ => /TagType::EfiMmap/
 //@  rewrite /(\w+)\.to_ne_bytes\(\)/ => /ne_bytes_u32(\1)/ x2
-//@  rewrite /new_boxed\(header, &\[&desc_size, &desc_version, efi_mmap\]\)/ => /{ let p0: &[u8] = desc_size.as_slice(); let p1: &[u8] = desc_version.as_slice(); let parts: [&[u8]; 3] = [p0, p1, efi_mmap]; proof { assert(parts@ =~= Seq::<&[u8]>::empty().push(p0).push(p1).push(efi_mmap)); } new_boxed(header, parts.as_slice()) }/
+//@  rewrite /new_boxed\(header, &\[&(\w+), &(\w+), (\w+)\]\)/ => /{ let p0: &[u8] = \1.as_slice(); let p1: &[u8] = \2.as_slice(); let parts: [&[u8]; 3] = [p0, p1, \3]; proof { assert(parts@ =~= Seq::<&[u8]>::empty().push(p0).push(p1).push(\3)); } new_boxed(header, parts.as_slice()) }/
 //@  prologue proof { lemma_mb2_layouts(); }
 //@  spec:
 //@    requires panics_allowed(), 16 + efi_mmap@.len() <= u32::MAX,
